@@ -283,6 +283,19 @@ def h_numeric_inverse(h, name, e, direction):
     h.claim(f'C10/numeric/{name}/objective==direct(x)-target', h.close(got, want, 1e-9))
     x0 = numpy.asarray(call.x0, dtype=object)
     h.claim(f'C10/numeric/{name}/start-has-input-shape', x0.shape == ())
+    # the start vector of a second call does not depend on the first call (no hidden state)
+    root2 = stubs.RootStub(h, 'rootB', domain=dom, may_fail=False)
+    x2 = h.real('x2')
+    h.assume(dom(x2) & (x2 > 0)) if h.sym else None
+    with stubs.patched((optimize, 'root', root2), (optimize, 'minimize', root2)):
+        t2 = direct(x2)
+        inverse(t2)
+    first_start, second_start = call.x0, root2.calls[-1].x0
+    if name == 'Virial':       # Nelder-Mead is started at the target itself
+        h.claim(f'C10/numeric/{name}/start-vector-history-independent', h.close(second_start, t2, 1e-12))
+    else:
+        h.claim(f'C10/numeric/{name}/start-vector-history-independent',
+                h.eq(numpy.asarray(second_start, dtype=object).item(), numpy.asarray(first_start, dtype=object).item()))
     if raised is None and name != 'WVST':
         rt = direct(back)
         h.claim(f'C10/numeric/{name}/direct(inverse(y))==y', h.close(rt, target, 1e-9))
@@ -291,9 +304,51 @@ def h_numeric_inverse(h, name, e, direction):
                 info='injectivity of the direct function on the model domain')
 
 
+ZERO_OK = ('Henry', 'Langmuir', 'DSLangmuir', 'BET', 'GAB', 'Quadratic', 'Toth')
+
+
+def h_array(h, name, e):
+    """1-d input: elementwise equal to the scalar results, including a zero entry next to non-zero ones"""
+    m = get_model(name)
+    fixed = {EXP_PARAM[name]: e} if e is not None else None
+    sym_params(h, m, fixed)
+    p = h.real('p')
+    n = h.real('n')
+    domain(h, name, m, p=p)
+    domain(h, name, m, n=n)
+    zero = 0.0
+    if h.sym:
+        mk = symx.symarray
+    else:
+        mk = lambda items: numpy.array(items, dtype=float)
+    first = zero if name in ZERO_OK else p / 2
+    firstn = zero if name in ZERO_OK else n / 2
+    with stubs.patched((numpy, 'nan_to_num', symx.nan_to_num_obj)) if h.sym else stubs.patched():
+        la = m.loading(mk([first, p]))
+        pa = m.pressure(mk([firstn, n]))
+        ls = [m.loading(first), m.loading(p)]
+        ps = [m.pressure(firstn), m.pressure(n)]
+    ok_l = getattr(la, 'shape', None) == (2,)
+    ok_p = getattr(pa, 'shape', None) == (2,)
+    h.claim(f'C10/array/{name}/loading(1-d)==elementwise', ok_l and h.close(la[0], ls[0], 1e-9) & h.close(la[1], ls[1], 1e-9),
+            regions(name, m))
+    h.claim(f'C10/array/{name}/pressure(1-d)==elementwise', ok_p and h.close(pa[0], ps[0], 1e-9) & h.close(pa[1], ps[1], 1e-9),
+            regions(name, m))
+    if name in ZERO_OK:
+        h.claim(f'C10/array/{name}/pressure([0,n])[0]==0', ok_p and h.eq(pa[0], 0.0), regions(name, m))
+        h.claim(f'C10/array/{name}/loading([0,p])[0]==0', ok_l and h.eq(la[0], 0.0))
+
+
 def obligations(tier):
     obs = []
     t = 60 if tier == 'quick' else 600
+    for name in CLOSED:
+        for e in exps(tier, name)[:1 if tier == 'quick' else None]:
+            tag = f'{name}' + (f'[{e}]' if e is not None else '')
+            obs.append(Obligation(f'C10/array/{tag}', h_array, (name, e), funcs=MODEL_FILES(name), timeout_s=t,
+                                  bounds=f'1-d input of length 2 (zero entry + symbolic entry); exponent={e}',
+                                  stubs=['numpy.nan_to_num: float semantics re-implemented for object arrays'],
+                                  closure=name in ('DR', 'DA', 'Freundlich')))
     for name in CLOSED:
         for e in exps(tier, name):
             tag = f'{name}' + (f'[{e}]' if e is not None else '')
